@@ -366,6 +366,21 @@ pub fn run(mut run: Run) -> i32 {
                 return;
             }
         };
+        // the same collection far from the origin (f64 translated by (2^30, 2^30); f32 by (500000, 4500000): every coordinate still exact): same area
+        if t % 3 == 0 {
+            let a0 = uu.unsigned_area();
+            let far64: Vec<Polygon<f64>> = polys.iter().map(|p| { use geo::MapCoords; p.map_coords(|c| Coord { x: c.x + 1073741824.0, y: c.y + 1073741824.0 }) }).collect();
+            let far32: Vec<Polygon<f32>> = polys.iter().map(|p| { use geo::MapCoords; p.map_coords(|c| Coord { x: c.x as f32 + 500000.0, y: c.y as f32 + 4500000.0 }) }).collect();
+            acc.evals += 2;
+            match guard(|| (unary_union(&far64).unsigned_area(), unary_union(&far32).unsigned_area() as f64)) {
+                Err(e) => acc.viol("unary_union panic far from the origin".into(), idx, || json!({"members": format!("{:?}", polys), "panic": e})),
+                Ok((a64, a32)) => {
+                    if (a64 - a0).abs() > 1e-4 * (1.0 + a0) || (a32 - a0).abs() > 0.26 * (1.0 + a0) {
+                        acc.viol(format!("unary_union far from the origin covers a different area ({} winding)", if cw { "cw" } else { "ccw" }), idx, || json!({"members": format!("{:?}", polys), "area_at_origin": a0, "area_f64_at_2^30": a64, "area_f32_at_(500000,4500000)": a32}));
+                    }
+                }
+            }
+        }
         let mut segs = vec![];
         for o in &sel {
             segs.extend(o.ag.segs());
